@@ -1,5 +1,5 @@
 """C04 — derived fields agree with the stored glyph data (hhea/vhea, hmtx/vmtx, bbox, OS/2 indices, VORG)."""
-from pyvc.api import BOOL, INT, REAL, STR, CONTRACTS, Const, Dict, List, Loop, Opt, Ref, Runtime, Set, Tuple, contract
+from pyvc.api import BOOL, INT, REAL, STR, CLASSES, CONTRACTS, Const, Dict, List, Loop, Opt, Ref, Runtime, Set, Tuple, contract
 
 from . import lib, spec  # noqa: F401
 
@@ -136,7 +136,7 @@ for _tag in ("hhea", "vhea"):
 # setupTable_VORG: the default origin plus the records reproduce every glyph's vertical origin
 import z3  # noqa: E402
 
-from pyvc import ty as T  # noqa: E402
+from pyvc import ops, ty as T  # noqa: E402
 from pyvc.api import cls, trusted  # noqa: E402
 from pyvc.core import Val, fresh, fresh_name, lift  # noqa: E402
 
@@ -260,3 +260,176 @@ def _vorg_build(d):
 
 
 CONTRACTS["ufo2ft.outlineCompiler:BaseOutlineCompiler.setupTable_VORG"].runtime = Runtime(_vorg_cases, _vorg_build, call=lambda fn, a: fn(a["self"]))
+
+
+# =====================================================================================================
+# makeFontBoundingBox: the font box is the UNION of the glyph boxes (glyphs without a box are skipped; no box
+# at all -> (0, 0, 0, 0)).  Stated as "encloses every glyph box" + "every side is attained by some glyph box"
+# (= the smallest enclosing rectangle); ghost w0..w3 name the glyph (position in the dict) attaining each side.
+
+
+@trusted("fontTools.misc.arrayTools.unionRect", "unionRect(a, b) == (min(a[0], b[0]), min(a[1], b[1]), max(a[2], b[2]), max(a[3], b[3])) as a plain 4-tuple")
+def _unionRect(ex, st, args, kwargs, node):
+    a, b = [ex.unpack(ex.deopt(x, st, node), 4, st, node) for x in args]
+    out = []
+    for k in range(4):
+        x, y, t = ops.num_join(a[k], b[k])
+        out.append(Val(t, z3.If((x <= y) if k < 2 else (x >= y), x, y)))
+    return Val(lib.BBOX, lib.BBOX.sort().mk(*[lift(o, INT) for o in out]))
+
+
+_B = "self.glyphBoundingBoxes"
+_SIDES = ("xMin", "yMin", "xMax", "yMax")
+_HASBOX = f"any({_B}[g] is not None for g in {_B})"
+
+
+def _encloses(box, g):
+    return (f"{box}[0] <= {_B}[{g}].xMin and {box}[1] <= {_B}[{g}].yMin and {box}[2] >= {_B}[{g}].xMax and {box}[3] >= {_B}[{g}].yMax")
+
+
+contract(
+    "ufo2ft.outlineCompiler:BaseOutlineCompiler.makeFontBoundingBox",
+    props=["C04"],
+    params={"self": Ref("OutlineCompiler")},
+    returns=lib.BBOX,
+    ensures={
+        "encloses-every-glyph-box": f"all(implies({_B}[g] is not None, {_encloses('result', 'g')}) for g in {_B})",
+        **{f"tight-{s}": f"implies({_HASBOX}, any({_B}[g] is not None and {_B}[g].{s} == result[{k}] for g in {_B}))" for k, s in enumerate(_SIDES)},
+        "empty": f"implies(not {_HASBOX}, result == (0, 0, 0, 0))",
+    },
+    canaries={"is-first-box": f"implies(len({_B}) > 0 and {_B}[list({_B})[0]] is not None, result == {_B}[list({_B})[0]])"},
+    ghost_vars={f"w{k}": (INT, "0") for k in range(4)},
+    ghost={
+        "fontBox = glyphBox": [f"w{k} = i" for k in range(4)],
+        "fontBox = unionRect(fontBox, glyphBox)": [f"w{k} = i if fontBox[{k}] == glyphBox[{k}] else w{k}" for k in range(4)],
+    },
+    loops={
+        "for glyphBox in self.glyphBoundingBoxes.values()": Loop(
+            index="i", seq="K",
+            locals={"fontBox": Opt(lib.BBOX)},
+            invariants={
+                "none-yet": f"iff(fontBox is None, all({_B}[K[a]] is None for a in range(i)))",
+                "encloses": f"implies(fontBox is not None, all(implies({_B}[K[a]] is not None, {_encloses('fontBox', 'K[a]')}) for a in range(i)))",
+                **{f"attained-{s}": f"implies(fontBox is not None, 0 <= w{k} and w{k} < i and {_B}[K[w{k}]] is not None and {_B}[K[w{k}]].{s} == fontBox[{k}])" for k, s in enumerate(_SIDES)},
+            },
+        )
+    },
+)
+
+
+def _fbb_cases(rng, n):
+    out = []
+    for k in range(n):
+        d = {"glyphs": rtlib.rand_glyphs(rng), "flavor": "otf" if k % 2 else "ttf"}
+        if k % 6 == 0:  # no outlined glyph at all
+            for g in d["glyphs"].values():
+                g.pop("box", None)
+        out.append(d)
+    return out
+
+
+def _fbb_build(d):
+    return {"self": rtlib.outline_compiler(d, d["flavor"])}
+
+
+CONTRACTS["ufo2ft.outlineCompiler:BaseOutlineCompiler.makeFontBoundingBox"].runtime = Runtime(_fbb_cases, _fbb_build, call=lambda fn, a: fn(a["self"]))
+
+
+# =====================================================================================================
+# setupTable_hmtx / setupTable_vmtx: one record per glyph; the advance is the rounded source advance and the side
+# bearing is the OUTLINE EXTREMUM (hmtx: lsb == xMin of the glyph box; vmtx: tsb == vertical origin - yMax of the glyph
+# box; 0 / origin for a glyph without a box).  (hmtx's advance rounding is also stated under C01 in contracts/c01.py;
+# the variant here is the C04 reading: bearings vs glyph boxes, exactly one record per glyph, nothing else.)
+
+
+@specfn(INT, v=REAL)
+def c04_otr(v):
+    """otRound: floor(v + 1/2)"""
+    from fontTools.misc.fixedTools import otRound
+
+    return otRound(v)
+
+
+CLASSES["GlyphV"].fields.update({"width": REAL, "height": REAL})
+cls("OutlineCompilerM", fields={"otf": Ref("TTFont"), "tables": Set(STR), "allGlyphs": Ref("GlyphSetV"), "glyphBoundingBoxes": Dict(STR, Opt(lib.BBOX))},
+    repo="ufo2ft.outlineCompiler:BaseOutlineCompiler", notes="compiler as the metrics builders see it: allGlyphs (name -> glyph with width/height), glyph boxes, otf")
+
+_AGM = "self.allGlyphs.glyphs"
+
+
+def _mtx_contract(tag):
+    h = tag == "hmtx"
+    MT = f"self.otf['{tag}'].metrics"
+    adv = f"c04_otr({_AGM}[g].{'width' if h else 'height'})"
+    box = f"{_B}[g]"
+    bearing = f"({box}.xMin if {box} is not None else 0)" if h else f"vertical_origin({_AGM}[g]) - ({box}.yMax if {box} is not None else 0)"
+
+    def rec(g):
+        return (f"{g} in {MT} and {MT}[{g}][0] == {adv} and {MT}[{g}][0] >= 0 and {MT}[{g}][1] == {bearing}").replace("[g]", f"[{g}]")
+
+    return contract(
+        f"ufo2ft.outlineCompiler:BaseOutlineCompiler.setupTable_{tag}",
+        name="c04",
+        props=["C04"],
+        params={"self": Ref("OutlineCompilerM")},
+        models={"ufo2ft.outlineCompiler._getVerticalOrigin": _vo_model},
+        requires=[
+            f"'{tag}' in self.tables",
+            # the code indexes glyphBoundingBoxes with every glyph name (KeyError otherwise): from the code
+            f"all(g in {_B} for g in {_AGM})",
+        ],
+        ensures={
+            "record-per-glyph": f"all({rec('g')} for g in {_AGM})",
+            "nothing-else": f"all(g in {_AGM} for g in {MT})",
+            "count": f"len({MT}) == len({_AGM})",
+        },
+        raises={"ValueError": f"any({adv} < 0 for g in {_AGM})"},
+        canaries={"bearing-zero": f"all({MT}[g][1] == 0 for g in {_AGM})"},
+        loops={
+            "for (glyphName, glyph) in self.allGlyphs.items()": Loop(
+                index="i", seq="K",
+                invariants={
+                    "is-table": f"self.otf.get('{tag}') is not None and {tag} == self.otf['{tag}']",
+                    "done": f"all({rec('K[a]')} for a in range(i))",
+                    "keys": f"len({MT}) == i and all(list({MT})[a] == K[a] for a in range(i))",
+                },
+            )
+        },
+    )
+
+
+_mtx_contract("hmtx")
+_mtx_contract("vmtx")
+
+
+def _mtx_cases(vertical):
+    def gen(rng, n):
+        out = []
+        for k in range(n):
+            g = rtlib.rand_glyphs(rng, n=rng.randint(0, 4), vertical=vertical)
+            for v in g.values():
+                v["width"] = rng.choice([0, 200, 600.5, 333.4, 0.5, 1.5, 2.5, -0.4])
+                if vertical:
+                    v["height"] = rng.choice([0, 1000, 800.5, 0.5, -0.4])
+            if k % 6 == 5 and g:
+                g[sorted(g)[-1]]["height" if vertical else "width"] = rng.choice([-1, -0.6, -300.5])
+            d = {"glyphs": g, "vertical": vertical, "flavor": "otf" if k % 2 else "ttf"}
+            if vertical:
+                d["info"] = dict(_VINFO)
+            out.append(d)
+        return out
+
+    return gen
+
+
+def _mtx_build(tag):
+    def build(d):
+        comp = rtlib.outline_compiler(d, d["flavor"], upto=() if tag == "hmtx" else ("head", "hmtx", "hhea", "maxp", "OS2"))
+        _RT_OTF[0] = comp.otf
+        return {"self": comp}
+
+    return build
+
+
+for _tag in ("hmtx", "vmtx"):
+    CONTRACTS[f"ufo2ft.outlineCompiler:BaseOutlineCompiler.setupTable_{_tag}#c04"].runtime = Runtime(_mtx_cases(_tag == "vmtx"), _mtx_build(_tag), call=lambda fn, a: fn(a["self"]))
